@@ -279,7 +279,7 @@ Definition ends_lf (v : str) : bool := match rev v with c :: _ => (c =? 10)%N | 
 Definition stable_pair (s : ser_id) (d : de_id) : bool :=
   match s, d with
   | SStr, DStr | SBool, DBool | SYesNo, DYesNo | SJaNee, DJa
-  | SJoinWs, DSplitWs | SJoinNl, DSplitNl | SJoinNl, DLines => true
+  | SJoinWs, DSplitWs | SJoinNl, DSplitNl | SJoinNl, DSplitNlE | SJoinNl, DLines => true
   | SNum, DNum _ | SInt, DInt _ => true
   | SExt i, DExt j => (i =? j)%N
   | _, _ => false
